@@ -4,6 +4,7 @@ import (
 	"bufio"
 	"fmt"
 	"io"
+	"os"
 	"os/exec"
 	"strconv"
 	"strings"
@@ -233,6 +234,9 @@ func (s *Solver) Check(extras []*Term, modelVars []*Term) (Result, map[string]ui
 	s.TotalTime += d
 	if d > s.MaxTime {
 		s.MaxTime = d
+	}
+	if dir := os.Getenv("VERIF_DUMP_SLOW"); dir != "" && d > 5*time.Second && snapshot != "" {
+		os.WriteFile(fmt.Sprintf("%s/slow_%d_%d.smt2", dir, os.Getpid(), time.Now().UnixNano()), []byte(snapshot), 0o644)
 	}
 	res := Unknown
 	if err != nil {
